@@ -78,6 +78,12 @@ def prepare(rep):
                 if x.startswith("conc-bin-") and os.path.join(d, x) != bind:
                     shutil.rmtree(os.path.join(d, x), ignore_errors=True)
         info["gen"] = gen
+        # conditional probe (C20): argument functions with a custom error result type
+        ptxt = open(os.path.join(gen, "probe.txt")).read() if os.path.exists(os.path.join(gen, "probe.txt")) else "refused\n"
+        info["probe"] = {"accepted": ptxt.startswith("accepted"), "goderive": ptxt[:400]}
+        if info["probe"]["accepted"]:
+            pp = common.sh(["go", "run", "."], cwd=os.path.join(gen, "probe"), timeout=600)
+            info["probe"].update({"rc": pp.returncode, "out": (pp.stdout + pp.stderr)[-1500:]})
         info["skeletons"] = dict(l.rstrip("\n").split(" ", 1) for l in open(os.path.join(gen, "skeletons.txt")) if l.strip())
     return info
 
@@ -264,6 +270,27 @@ def race_part(rep, info, systems, prop, tier=None, timeout=1500, maxsec=0):
     return found
 
 
+def probe_part(rep, info):
+    """Do over functions whose second result is a custom error type (func() (int, *NotFound)): the current
+    generator refuses them (recorded); a generator that accepts them must still return a nil error when all
+    functions succeeded (a typed nil stored in an error variable is not nil) and one of the returned errors otherwise."""
+    pr = info.get("probe") or {"accepted": False}
+    if not pr["accepted"]:
+        rep.cov["custom_error_type_probe"] = "refused by goderive (functions must return the predeclared error): " + \
+            pr.get("goderive", "").split("\n", 1)[-1].strip()[:200]
+        return 0
+    rep.cov["evaluations"] += 2
+    if pr.get("rc") == 0:
+        rep.cov["custom_error_type_probe"] = "accepted by goderive; all-succeed returns nil, failing returns one of the errors"
+        return 0
+    rep.cov["custom_error_type_probe"] = "accepted by goderive and VIOLATES the error rule"
+    rep.violation("Do over func() (int, *NotFound), func() (int, error): " + pr.get("out", "")[:700],
+                  {"kind": "probe", "replay": {"config": {"sys": "do-probe", "f0": "func() (int, *NotFound) returning (7, nil)",
+                                                          "f1": "func() (int, error) returning (8, nil)"}, "choices": []},
+                   "output": pr.get("out", "")}, True)
+    return 1
+
+
 def run(rep, prop, systems):
     info = prepare(rep)
     ok_proof = proof_part(rep, prop)
@@ -273,6 +300,8 @@ def run(rep, prop, systems):
     rep.cov["skeletons_checked"] = len(info["skeletons"])
     rep.cov["emitted_hash"] = info["emitted_hash"]
     found = 0
+    if prop == "C20":
+        found += probe_part(rep, info)
     driver_ok = os.path.exists(common.driver_path())
     if driver_ok:
         found += sched_part(rep, info, systems, prop)
@@ -299,6 +328,10 @@ def replay(rep, path, prop, systems):
         print("replay: %s names no schedule (%s); re-running the whole check" % (path, r.get("what", "")[:200]))
         rep.seed, rep.tier = r.get("seed", rep.seed), r.get("tier", rep.tier)
         run(rep, prop, systems)
+        return rep.finish()
+    if r.get("kind") == "probe":
+        print((info.get("probe") or {}).get("out", "probe refused by goderive"))
+        probe_part(rep, info)
         return rep.finish()
     if r.get("kind") == "race":
         env = dict(common.GOENV)
